@@ -255,6 +255,7 @@ LEVEL_TEXT = ('Generated-input search: the synthesis operator of DWT1DInverse/DW
               'compared with explicit zeros on the signal extent, dtype included. Thorough tier visits '
               'all 106 x 5 x 2 strata.')
 LEVEL_TEXT += (' Also generated: constructed None-at-odd-level cases (with a generator floor), filter forms and module histories of C01, autograd contexts.')
+LEVEL_TEXT += (' Round 10: sibling inverse constructed and used between construction and use; custom same-name pywt.Wavelet objects.')
 LEVEL_NOTE = ('Sampled configurations, bounded sizes; trusts PyWavelets; open findings KF-D1-synthesis '
               '(short periodization) and KF-D8-ambiguous (None level whose size the API cannot know, '
               'periodization) are classified by predicate.')
